@@ -260,18 +260,24 @@ func (r *RPCExecuteProgramRequest) EncodeTo(e *types.Encoder) {
 // DecodeFrom implements ProtocolObject.
 func (r *RPCExecuteProgramRequest) DecodeFrom(d *types.Decoder) {
 	r.FileContractID.DecodeFrom(d)
-	r.Program = make([]Instruction, d.ReadUint64())
-	for i := range r.Program {
+	// the instruction count is untrusted: grow the program as instructions
+	// are decoded rather than allocating it up front
+	n := d.ReadUint64()
+	r.Program = []Instruction{}
+	for i := uint64(0); i < n; i++ {
 		var id types.Specifier
 		id.DecodeFrom(d)
-		r.Program[i] = instructionForID(id, d.ReadUint64())
-		if r.Program[i] == nil {
+		instr := instructionForID(id, d.ReadUint64())
+		if d.Err() != nil {
+			return
+		} else if instr == nil {
 			d.SetErr(fmt.Errorf("unrecognized instruction id: %q", id))
 			return
 		}
-		if r.Program[i].DecodeFrom(d); d.Err() != nil {
+		if instr.DecodeFrom(d); d.Err() != nil {
 			return
 		}
+		r.Program = append(r.Program, instr)
 	}
 	r.ProgramData = d.ReadBytes()
 }
@@ -305,8 +311,14 @@ func (r *RPCExecuteProgramResponse) DecodeFrom(d *types.Decoder) {
 	}
 	(*types.V1Currency)(&r.TotalCost).DecodeFrom(d)
 	(*types.V1Currency)(&r.FailureRefund).DecodeFrom(d)
-	r.Output = make([]byte, r.OutputLength)
-	d.Read(r.Output)
+	// OutputLength is untrusted: grow the buffer as the output arrives rather
+	// than allocating OutputLength bytes up front
+	r.Output = []byte{}
+	for uint64(len(r.Output)) < r.OutputLength && d.Err() == nil {
+		n := min(r.OutputLength-uint64(len(r.Output)), uint64(max(len(r.Output), 4096)))
+		r.Output = append(r.Output, make([]byte, n)...)
+		d.Read(r.Output[uint64(len(r.Output))-n:])
+	}
 }
 
 // EncodeTo implements ProtocolObject.
